@@ -6,8 +6,17 @@ Three evaluations of every case (a base object, one `output` request, a scratch 
   model   lean/CijModel/Writer.lean run at Float on the same in-memory arrays (file content, not layout);
   oracle  the property STATEMENT, independent of both: requested grids T_MIN+k*DT / P_MIN+j*DELTA_P, in-memory
           arrays times CODATA factors typed in below, names from the documented patterns typed in below.
-The base object is a stub carrying random arrays with the REAL write_table / write_variables / _base_name of
-CijVolumeBaseInterface / CijPressureBaseInterface, and (a few cases) the bases of a real Calculator on synthetic data.
+The base object is a stub carrying random arrays — an instance of a SUBCLASS of the real CijVolumeBaseInterface /
+CijPressureBaseInterface, so write_table / write_variables / _base_name and every piece of class-level state are the real ones — and
+(a few cases) the bases of real Calculators on synthetic data.
+
+Streams: every keyword and alias x both bases (str form, dict form, unit / fname overrides, ignored keys), malformed requests,
+user rule lists, `write_output` lists with repeated rules, real Calculators; `alternate`: TWO bases (stubs of one class, or two real
+Calculators) writing alternately in one process, the same base written twice with different lists — every step must carry the
+data, grids and labels of the base it was called on; pressure grids whose labels need three or more decimals (DELTA_P 0.125,
+P_MIN 0.375, DELTA_P_SAMPLE / DT_SAMPLE multiples of the step on the real Calculator), the header line of the file parsed by this
+harness (not by pandas) against the independently computed grid; every in-memory array reachable from the base is compared bit for
+bit before and after writing (no conversion in place).
 """
 from __future__ import annotations
 
@@ -108,20 +117,42 @@ def make_arrays(case):
     return arrays, v_array
 
 
-def make_stub(case):
-    """stub base with the REAL write_table / write_variables / _base_name of the interface class"""
+class _Slot:
+    """non-data descriptor that shadows a property of the real interface class: an instance attribute of that name wins,
+    without one the attribute is missing (AttributeError -> the real class's __getattr__ -> AttributeError)"""
+    def __init__(self, name): self.name = name
+    def __get__(self, obj, typ=None):
+        if obj is None: return self
+        raise AttributeError(self.name)
+
+
+class _NoCalculator:
+    """what `self.calculator` is on a stub: nothing behind it"""
+    def __getattr__(self, name): raise AttributeError(name)
+
+
+def stub_class(cls, cache=None):
+    """a subclass of the REAL interface class whose data properties are plain slots.  A fresh subclass per case keeps single-case
+    replays self-contained; the `alternate` stream passes a cache so that its two bases are instances of ONE class (state kept on
+    the class — a writer built once per class, a shared table cache — is then visible)."""
+    if cache is not None and cls in cache: return cache[cls]
+    ns = {n: _Slot(n) for n in VALUE_PROPS + IJ_PROPS + ["t_array", "p_array", "v_array", "mass"]}
+    ns["__init__"] = lambda self: None
+    sub = type("Stub" + cls.__name__, (cls,), ns)
+    if cache is not None: cache[cls] = sub
+    return sub
+
+
+def make_stub(case, cls_cache=None):
+    """stub base: instance of a subclass of the real interface class (REAL write_table / write_variables / _base_name)"""
     import qha.unit_conversion
     from cij.core.calculator import CijVolumeBaseInterface, CijPressureBaseInterface
     from cij.util import c_
     arrays, v_array = make_arrays(case)
     t, p_gpa = grid_arrays(case["grid"])
     cls = CijPressureBaseInterface if case["base"] == "tp" else CijVolumeBaseInterface
-
-    class Stub:
-        _base_name = cls._base_name
-        write_table = cls.write_table
-        write_variables = cls.write_variables
-    s = Stub()
+    s = stub_class(cls, cls_cache)()
+    s.calculator = _NoCalculator()
     s.t_array = t
     if case["base"] == "tp":
         s.p_array = qha.unit_conversion.gpa_to_ry_b3(numpy.asarray(p_gpa, dtype=float))
@@ -134,13 +165,13 @@ def make_stub(case):
     props = {}
     for prop in VALUE_PROPS:
         if prop in missing: continue
-        setattr(s, prop, arrays[prop]); props[prop] = arrays[prop]
+        setattr(s, prop, arrays[prop]); props[prop] = arrays[prop].copy()        # the expectation never shares memory with the base
     for prop in IJ_PROPS:
         if prop in missing: continue
         pairs = [(c_(ij), arrays[prop][ij]) for ij in comps]
         setattr(s, prop, _Items(pairs) if case["base"] == "tp" else dict(pairs))
-        props[prop] = [(ij, arrays[prop][ij]) for ij in comps]
-    return s, {"name_expected": case["base"], "t": numpy.asarray(t, dtype=float), "axis": numpy.asarray(axis, dtype=float),
+        props[prop] = [(ij, arrays[prop][ij].copy()) for ij in comps]
+    return s, {"name_expected": case["base"], "t": numpy.array(t, dtype=float), "axis": numpy.array(axis, dtype=float),
                "props": props, "base_name": s._base_name}
 
 
@@ -156,7 +187,7 @@ def make_real(case):
         rng = numpy.random.Generator(numpy.random.PCG64(int(case["synth_seed"])))
         ds = synth.make_dataset(rng, nv=6, nq=2, na=2, system="cubic", settings={"qha": {"settings": {
             "NT": g["NT"], "DT": g["DT"], "T_MIN": g["T_MIN"], "NTV": g["NTV"], "DELTA_P": g["DELTA_P"], "P_MIN": g["P_MIN"],
-            "DT_SAMPLE": g["DT"], "DELTA_P_SAMPLE": g["DELTA_P"]}}})
+            "DT_SAMPLE": g["DT"] * g.get("DT_SAMPLE_MULT", 1), "DELTA_P_SAMPLE": g["DELTA_P"] * g.get("DP_SAMPLE_MULT", 1)}}})
         d = tempfile.mkdtemp(prefix="c15real_")
         cwd = os.getcwd()
         try:
@@ -197,8 +228,8 @@ def make_real(case):
                 props[prop] = [("%d%d" % tuple(k.v), numpy.array(v2p(numpy.asarray(src[k], dtype=float), p_tv, numpy.asarray(base.p_array, dtype=float)), dtype=float))
                                for k, _ in getattr(base, prop).items()]
     axis = base.p_array if case["base"] == "tp" else base.v_array
-    return base, {"name_expected": case["base"], "t": numpy.asarray(base.t_array, dtype=float),
-                  "axis": numpy.asarray(axis, dtype=float), "props": props, "base_name": base._base_name}
+    return base, {"name_expected": case["base"], "t": numpy.array(base.t_array, dtype=float),
+                  "axis": numpy.array(axis, dtype=float), "props": props, "base_name": base._base_name, "calc": calc}
 
 
 def make_base(case):
@@ -206,6 +237,12 @@ def make_base(case):
 
 
 # ----------------------------------------------------------------------------- the real code
+def parse_header(raw):
+    """corner and column labels from the first line of the file, parsed here (pandas renames repeated labels)"""
+    first = raw.decode("utf-8", "replace").splitlines()[0].split()
+    return first[0], [float(x) for x in first[1:]]
+
+
 def read_dir(d):
     import pandas
     out = {}
@@ -214,12 +251,43 @@ def read_dir(d):
         with open(path, "rb") as fp: raw = fp.read()
         try:
             df = pandas.read_table(path, sep=r"\s+", index_col=0)
+            corner, cols = parse_header(raw)
+            if len(cols) != df.shape[1]: raise ValueError("header and body disagree")
+            out[name] = {"corner": corner, "rows": [float(x) for x in df.index], "cols": cols,
+                         "vals": df.to_numpy(dtype=float), "raw": raw}
         except Exception as e:      # a file that cannot be re-read as a table: content "nothing" (differs from any expected table)
             out[name] = {"corner": f"unreadable: {type(e).__name__}", "rows": [], "cols": [], "vals": numpy.zeros((0, 0)), "raw": raw}
-            continue
-        out[name] = {"corner": str(df.index.name), "rows": [float(x) for x in df.index],
-                     "cols": [float(c) for c in df.columns], "vals": df.to_numpy(dtype=float), "raw": raw}
     return out
+
+
+def snapshot(base, info):
+    """bytes of every in-memory array the writer can reach through the base (taken before and after writing)"""
+    snap = {}
+    def put(name, get):
+        try: snap[name] = numpy.array(get(), dtype=float).tobytes()
+        except Exception: pass
+    for n in ("t_array", "p_array", "v_array"): put(n, lambda n=n: getattr(base, n))
+    calc = info.get("calc") if isinstance(info, dict) else None
+    if calc is not None:
+        # a real Calculator: the cached arrays everything else is computed from
+        for prop in IJ_PROPS:
+            try:
+                for k, v in getattr(calc, prop).items(): put(f"calculator.{prop}[{'%d%d' % tuple(k.v)}]", lambda v=v: v)
+            except Exception: pass
+        put("qha.volume_base.pressures", lambda: calc.qha_calculator.volume_base.pressures)
+        put("qha.pressure_base.volumes", lambda: calc.qha_calculator.pressure_base.volumes)
+        put("qha.volume_base.v_array", lambda: calc.qha_calculator.volume_base.v_array)
+        return snap
+    for prop in VALUE_PROPS: put(prop, lambda prop=prop: base.__dict__[prop])
+    for prop in IJ_PROPS:
+        try:
+            for k, v in base.__dict__[prop].items(): put(f"{prop}[{'%d%d' % tuple(k.v)}]", lambda v=v: v)
+        except Exception: pass
+    return snap
+
+
+def changed_arrays(before, after):
+    return sorted(k for k in before if k in after and before[k] != after[k])
 
 
 def run_impl(case, base):
@@ -239,6 +307,16 @@ def run_impl(case, base):
                 c.config = {"output": out}
                 c.pressure_base, c.volume_base = base
                 Calculator.write_output(c)
+            elif case.get("check") == "write_variables":
+                base.write_variables(copy.deepcopy(case["cfgs"]))
+            elif case.get("check") == "calculator_write_output":
+                calc = case["calc"]
+                saved = calc.config.get("output")
+                calc.config["output"] = {("pressure_base" if case["base"] == "tp" else "volume_base"): copy.deepcopy(case["cfgs"])}
+                try: calc.write_output()
+                finally:
+                    if saved is None: calc.config.pop("output", None)
+                    else: calc.config["output"] = saved
             elif case.get("rules") is not None:
                 from cij.io.output.results_writer import ResultsWriter
                 ResultsWriter(base, copy.deepcopy(case["rules"])).write(copy.deepcopy(case["cfg"]))
@@ -441,11 +519,25 @@ NICE_DT = [1, 10, 50, 100, 0.5, 2.5, 37.5]
 NICE_DP = [0.1, 0.5, 1.0, 2.0, 2.5, 10.0, 0.25]
 
 
+FINE_DP = [0.125, 0.025, 0.375, 0.005, 0.0625, 1.125]        # steps / starts whose multiples need three or more decimals
+FINE_PMIN = [0.375, 0.125, 0.005, -0.625, 1.875, 0.0]
+
+
+def needs_fine_labels(grid):
+    """some pressure label of the grid is not a multiple of 0.01 GPa"""
+    return any(abs(round(p * 100.0) - p * 100.0) > 1e-6 for p in (grid["P_MIN"] + j * grid["DELTA_P"] for j in range(grid["NTV"])))
+
+
 def gen_grid(rng):
-    if rng.random() < 0.6:
+    r = rng.random()
+    if r < 0.45:
         return {"NT": int(rng.integers(1, 9)), "DT": NICE_DT[rng.integers(len(NICE_DT))], "T_MIN": [0, 0, 300, 10, 273.15][rng.integers(5)],
                 "NTV": int(rng.integers(1, 8)), "DELTA_P": float(NICE_DP[rng.integers(len(NICE_DP))]),
                 "P_MIN": [0.0, 0.0, -5.0, 10.0, 1.5][rng.integers(5)]}
+    if r < 0.7:
+        return {"NT": int(rng.integers(1, 9)), "DT": NICE_DT[rng.integers(len(NICE_DT))], "T_MIN": [0, 0, 300, 10, 273.15][rng.integers(5)],
+                "NTV": int(rng.integers(2, 10)), "DELTA_P": float(FINE_DP[rng.integers(len(FINE_DP))]),
+                "P_MIN": float(FINE_PMIN[rng.integers(len(FINE_PMIN))])}
     return {"NT": int(rng.integers(1, 12)), "DT": float(numpy.round(rng.uniform(0.5, 150.0), 3)), "T_MIN": float(numpy.round(rng.uniform(0.0, 500.0), 2)),
             "NTV": int(rng.integers(1, 10)), "DELTA_P": float(numpy.round(rng.uniform(0.05, 12.0), 3)),
             "P_MIN": float(numpy.round(rng.uniform(-20.0, 100.0), 2))}
@@ -565,16 +657,77 @@ def write_output_cases(rng, n):
     return out
 
 
+def real_grid(rng, fine):
+    if fine:
+        # labels with a third decimal; the SAMPLE steps are multiples of the steps (the tables must still carry every grid point)
+        return {"NT": int(rng.integers(3, 8)), "DT": [50, 100, 25.0][rng.integers(3)], "T_MIN": [0, 100, 300][rng.integers(3)],
+                "NTV": int(rng.integers(5, 10)), "DELTA_P": [0.125, 0.375, 0.625][rng.integers(3)], "P_MIN": [0.375, 0.125, 1.875][rng.integers(3)],
+                "DT_SAMPLE_MULT": int(rng.integers(1, 4)), "DP_SAMPLE_MULT": int(rng.integers(1, 4))}
+    return {"NT": int(rng.integers(3, 8)), "DT": [50, 100, 25.0][rng.integers(3)], "T_MIN": [0, 100, 300][rng.integers(3)],
+            "NTV": int(rng.integers(4, 9)), "DELTA_P": [0.5, 1.0, 2.0][rng.integers(3)], "P_MIN": [0.0, 1.0, 5.0][rng.integers(3)]}
+
+
 def real_cases(rng, n):
     out = []
-    for _ in range(n):
-        grid = {"NT": int(rng.integers(3, 8)), "DT": [50, 100, 25.0][rng.integers(3)], "T_MIN": [0, 100, 300][rng.integers(3)],
-                "NTV": int(rng.integers(4, 9)), "DELTA_P": [0.5, 1.0, 2.0][rng.integers(3)], "P_MIN": [0.0, 1.0, 5.0][rng.integers(3)]}
+    for i in range(n):
+        grid = real_grid(rng, fine=(i % 2 == 1))
         seed = int(rng.integers(0, 2 ** 31))
         for base in ("tp", "tv"):
             for kw in ALL_KEYWORDS:
                 if available(base, kw):
                     out.append({"check": "write", "real": True, "synth_seed": seed, "grid": grid, "base": base, "cfg": kw})
+    return out
+
+
+def request_list(rng, base, n):
+    """a list for `write_variables`: keywords / aliases as str or dict, value keywords also with their own unit and/or file name"""
+    ks = [k for k in ALL_KEYWORDS if available(base, k)]
+    out = []
+    for _ in range(n):
+        kw = ks[int(rng.integers(len(ks)))]
+        kind, q = DOC_BY_KW[kw][4], DOC_BY_KW[kw][5]
+        r = rng.random()
+        if r < 0.45: out.append(kw)
+        elif r < 0.6: out.append({"keyword": kw})
+        else:
+            e = {"keyword": kw}
+            units_ = list(UNIT_FACTORS[q])
+            if rng.random() < 0.6: e["unit"] = units_[int(rng.integers(len(units_)))]
+            if kind == "value" and rng.random() < 0.5: e["fname"] = f"own_{base}_{int(rng.integers(1000))}.txt"
+            out.append(e)
+    return out
+
+
+def alternate_cases(rng, n):
+    """two stub bases (mostly of ONE interface class) written alternately, and the same base twice in a row with different lists"""
+    out = []
+    for _ in range(n):
+        kind = "tp" if rng.random() < 0.5 else "tv"
+        a, b = gen_scenario(rng), gen_scenario(rng)
+        a["base"] = kind
+        b["base"] = kind if rng.random() < 0.8 else ("tv" if kind == "tp" else "tp")
+        for sc in (a, b):
+            if not sc["components"]: sc["components"] = [KEYS21[i] for i in rng.permutation(21)[:3]]
+        steps, who = [], "a"
+        for i in range(int(rng.integers(3, 7))):
+            if i > 0 and rng.random() < 0.75: who = "b" if who == "a" else "a"          # else: the same base again, another list
+            steps.append([who, request_list(rng, (a if who == "a" else b)["base"], int(rng.integers(1, 4)))])
+        out.append({"check": "alternate", "a": a, "b": b, "steps": steps})
+    return out
+
+
+def alternate_real_cases(rng, first):
+    """two REAL Calculators in one process: `write_output` of one, of the other, of the first again.  `first` = (synth_seed, grid)
+    of a Calculator that exists already (cached); the second one gets a pressure grid with a third decimal."""
+    seed_a, grid_a = first
+    seed_b, grid_b = int(rng.integers(0, 2 ** 31)), real_grid(rng, fine=True)
+    out = []
+    for kind in ("tp", "tv"):
+        a = {"real": True, "synth_seed": seed_a, "grid": grid_a, "base": kind}
+        b = {"real": True, "synth_seed": seed_b, "grid": grid_b, "base": kind}
+        steps = [["a", request_list(rng, kind, 2)], ["b", request_list(rng, kind, 3)], ["a", request_list(rng, kind, 2)],
+                 ["b", request_list(rng, kind, 2)], ["b", request_list(rng, kind, 2)]]
+        out.append({"check": "alternate", "real": True, "a": a, "b": b, "steps": steps})
     return out
 
 
@@ -592,17 +745,44 @@ def light(case):
     return jsonable({k: v for k, v in case.items()})
 
 
+def add_failure(res: Result, what, case, observed, expected, site, limit_fail=12):
+    if len(res.oracle_failures) < limit_fail and site not in {f.site for f in res.oracle_failures}:
+        res.oracle_failures.append(OracleFailure(what=what, input=light(case), observed=observed, expected=expected, site=site))
+
+
+def count(res: Result, key, sub=None, n=1):
+    if sub is None:
+        res.distribution[key] = res.distribution.get(key, 0) + n
+    else:
+        d = res.distribution.setdefault(key, {}); d[sub] = d.get(sub, 0) + n
+
+
+def inplace_check(res: Result, case, before, after, where):
+    """arrays read before and after writing are bit-identical"""
+    count(res, "inplace_arrays_compared", n=len(before))
+    ch = changed_arrays(before, after)
+    if ch:
+        add_failure(res, "writing changed in-memory results (arrays differ bit-wise before / after the write)", case,
+                    {"changed": ch[:8]}, {"changed": []}, f"write:in-place:{where}")
+
+
 def evaluate(ctx: Ctx, cases, res: Result, with_model=True, limit_fail=12):
     """runs impl + oracle (+ model) on the cases; returns list of (case, impl) for alias checks"""
     done = []
     ops, keep = [], []
     for case in cases:
+        if case.get("check") == "alternate":
+            evaluate_alternate(ctx, [case], res, with_model=with_model)
+            continue
         try:
             base, info = build(case)
         except Exception as e:     # a real Calculator that cannot be built is not this property's business
             res.contract_failures.append(f"scenario could not be built: {type(e).__name__}: {e}")
             continue
+        pairs = list(zip(base, info)) if isinstance(base, tuple) else [(base, info)]
+        before = [snapshot(b, i) for b, i in pairs]
         impl, exc = run_impl(case, base)
+        after = [snapshot(b, i) for b, i in pairs]
         res.evaluations += 1
         kind = "write_output" if case.get("check") == "write_output" else ("real" if case.get("real") else ("custom_rules" if case.get("rules") is not None else "stub"))
         res.distribution.setdefault("kind", {}).setdefault(kind, 0); res.distribution["kind"][kind] += 1
@@ -610,6 +790,10 @@ def evaluate(ctx: Ctx, cases, res: Result, with_model=True, limit_fail=12):
             res.distribution.setdefault("errors", {}).setdefault(exc, 0); res.distribution["errors"][exc] += 1
         else:
             res.distribution.setdefault("files_written", 0); res.distribution["files_written"] += len(impl)
+            if case.get("grid") and needs_fine_labels(case["grid"]) and case.get("base", "tp") == "tp" and impl:
+                count(res, "pressure_grids_needing_3_or_more_decimals", kind)
+        for bf, af in zip(before, after):
+            inplace_check(res, case, bf, af, kind)
         r = oracle_case(case, impl, info)
         if r is not None and len(res.oracle_failures) < limit_fail and r[3] not in {f.site for f in res.oracle_failures}:
             res.oracle_failures.append(OracleFailure(what=r[0], input=light(case), observed=r[1], expected=r[2], site=r[3]))
@@ -626,6 +810,68 @@ def evaluate(ctx: Ctx, cases, res: Result, with_model=True, limit_fail=12):
             else:
                 res.disagreements.append(Disagreement("c15.write", light(case), jsonable(d[1]), jsonable(d[2]), note=d[0]))
     return done
+
+
+def evaluate_alternate(ctx: Ctx, cases, res: Result, with_model=True):
+    """`alternate` stream: the bases `a` and `b` of a case write in turn (each step into an empty directory); every step must
+    leave the files of ITS base — data, grids, labels, names — whatever was written before, by whom"""
+    ops, keep = [], []
+    for case in cases:
+        cls_cache = {}
+        bases = {}
+        try:
+            for who in ("a", "b"):
+                sc = case[who]
+                if sc.get("real"): bases[who] = make_real(sc)
+                else: bases[who] = make_stub(dict(sc, missing=["volumes"] if sc["base"] == "tv" else ["pressures"]), cls_cache)
+        except Exception as e:
+            res.contract_failures.append(f"scenario could not be built: {type(e).__name__}: {e}")
+            continue
+        tag = "real" if case.get("real") else "stub"
+        count(res, "alternate", "cases:" + tag)
+        if case["a"]["base"] == case["b"]["base"]: count(res, "alternate", "both_bases_of_one_class")
+        before = {w: snapshot(*bases[w]) for w in bases}
+        seen, prev = set(), None
+        for i, (who, lst) in enumerate(case["steps"]):
+            base, info = bases[who]
+            sc = case[who]
+            pressure = sc["base"] == "tp"
+            if sc.get("real"): sub = {"check": "calculator_write_output", "calc": info["calc"], "base": sc["base"], "cfgs": lst}
+            else: sub = {"check": "write_variables", "cfgs": lst}
+            impl, exc = run_impl(sub, base)
+            res.evaluations += 1
+            count(res, "alternate", "steps")
+            if prev == who: count(res, "alternate", "same_base_again_with_another_list")
+            elif prev is not None: count(res, "alternate", "base_switched")
+            count(res, "alternate", "list_length_%d" % len(lst))
+            if pressure and needs_fine_labels(sc["grid"]): count(res, "pressure_grids_needing_3_or_more_decimals", "alternate:" + tag)
+            want = {}
+            for cfg in lst: want.update(expected_request(sc, info, cfg, pressure))
+            position = "first-write-of-this-base" if who not in seen else "later-write-of-this-base"
+            if who not in seen and seen: position = "first-write-after-another-base"
+            if isinstance(impl, str):
+                count(res, "errors", exc)
+                add_failure(res, f"step {i} (base {who}): valid list raised", case, f"{impl}: {exc}", sorted(map(str, want)),
+                            f"alternate:{tag}:{position}:raises")
+            else:
+                count(res, "files_written", n=len(impl))
+                d = diff_files(impl, want, UNIT_RTOL, check_corner=False)
+                if d is not None:
+                    aspect = d[0].split(":")[0]
+                    add_failure(res, f"step {i}: base {who!r} ({sc['base']}) did not write ITS data / grids ({d[0]})", case, d[1], d[2],
+                                f"alternate:{tag}:{position}:{aspect}")
+            if with_model:
+                ops.append({"op": "c15.write_variables", "base": base_json(info, pressure), "cfgs": [cfg_json(c) for c in lst],
+                            "units": units_json(unit_pairs(sc, lst))})
+                keep.append((case, i, impl))
+            seen.add(who); prev = who
+        after = {w: snapshot(*bases[w]) for w in bases}
+        for w in bases: inplace_check(res, case, before[w], after[w], "alternate:" + tag)
+    if with_model and ops:
+        for (case, i, impl), ans in zip(keep, ctx.driver.ask(ops)):
+            d = diff_files(impl, decode_model(ans), VALUE_RTOL)
+            if d is None: res.traces_validated += 1
+            else: res.disagreements.append(Disagreement("c15.write_variables", dict(light(case), step=i), jsonable(d[1]), jsonable(d[2]), note=d[0]))
 
 
 def alias_check(done, res: Result):
@@ -709,6 +955,7 @@ def run(ctx: Ctx) -> Result:
     rng = ctx.rng
     res.rule = ("a case = (base kind stub/real, base tv/tp, grid (NT,DT,T_MIN,NTV,DELTA_P,P_MIN), in-memory arrays, component list and order, "
                 "one output request: keyword or alias as str or dict with optional unit/fname override, optional custom rule list); "
+                "an `alternate` case = two such bases and a sequence of (base, request list) steps, each step counted; "
                 "distinct = distinct (scenario, request) pairs; non-trivial = the request is valid and writes at least one file")
     for payload in ctx.corpus():
         evaluate(ctx, [payload.get("input", payload)], res)
@@ -734,9 +981,14 @@ def run(ctx: Ctx) -> Result:
                                 "first_row": (impl[sorted(impl)[0]]["vals"][0][:3].tolist() if not isinstance(impl, str) and impl else None)})
     done = evaluate(ctx, write_output_cases(rng, 8 if not ctx.thorough() else 60), res)
     nontrivial += sum(1 for c, impl, _ in done if not isinstance(impl, str) and len(impl) > 0)
-    done = evaluate(ctx, real_cases(rng, 1 if not ctx.thorough() else 4), res)
+    evaluate_alternate(ctx, alternate_cases(rng, 10 if not ctx.thorough() else 80), res)
+    rc = real_cases(rng, 1 if not ctx.thorough() else 4)
+    done = evaluate(ctx, rc, res)
     n_alias += alias_check(done, res)
     nontrivial += sum(1 for c, impl, _ in done if not isinstance(impl, str) and len(impl) > 0)
+    if rc and ctx.time_left() > 120:
+        evaluate_alternate(ctx, alternate_real_cases(rng, (rc[0]["synth_seed"], rc[0]["grid"])), res)
+    nontrivial += res.distribution.get("alternate", {}).get("steps", 0)
     res.distinct_nontrivial = nontrivial
     res.distribution["alias_pairs_compared_bytewise"] = n_alias
     res.distribution["scenarios"] = n_sc
@@ -750,7 +1002,8 @@ def search(ctx: Ctx, res: Result):
     rng = numpy.random.Generator(numpy.random.PCG64([ctx.seed, 1515]))
     for d in res.disagreements[:5]:
         if isinstance(d.input, dict) and d.input.get("check"):
-            evaluate(ctx, [d.input], extra, with_model=False)
+            evaluate(ctx, [{k: v for k, v in d.input.items() if k != "step"}], extra, with_model=False)
+    evaluate_alternate(ctx, alternate_cases(rng, 20), extra, with_model=False)
     for i in range(40):
         if extra.oracle_failures or ctx.time_left() < 30: break
         sc = gen_scenario(rng)
